@@ -75,6 +75,7 @@ type VC struct {
 	err      error
 	autoKept []string
 	topVals  map[ssa.Value]Term
+	renderAllDecls bool
 }
 
 func (vc *VC) fresh(base string) string {
